@@ -932,6 +932,12 @@ CONFIG["C13"] = dict(
                "in the rest of that iteration, channel free afterwards: SearchStopped last and once; host name in any letter case); "
                "no_ptr_query_after_stop + stop_browse_gone (no PTR question for the type in any later history until browsed again); "
                "no_host_query_after_stop (no A+AAAA / single A or AAAA question for the name, for a daemon without browse work); "
+               "cache-only browsing (the statement D23 violated, proved since refresh_active_services skips cache-only types): "
+               "cache_only_iteration_quiet (every state, every input: an iteration asks no PTR question for a type that is browsed "
+               "cache-only), no_ptr_query_while_cache_only (any later history until browse / browse_cache / stop_browse of the type), "
+               "browse_cache_quiet (the command emits events only and leaves the type quiet, also when it replaces a browse), "
+               "refresh_only_for_active + cache_only_refresh_silent (every query of the refresh phase - PTR, SRV/TXT, A/AAAA - is sent "
+               "for a type that is browsed and not cache-only; none when every browse is cache-only); "
                "delays_ok_run. Whole-history capstones from the fresh daemon: browse_channel_lifecycle, resolve_channel_lifecycle "
                "(nothing on the channel before the call, SearchStarted first, SearchStopped at the stop and nothing after, nothing "
                "ever after), timeout_channel_lifecycle + timeout_ends_for_good + stale_silent_for_ever (SearchTimeout then "
@@ -942,6 +948,10 @@ CONFIG["C13"] = dict(
                "'forgets the records it cached' is checked through a later browse of the same type in the same history, not "
                "through metrics.",
     partial=["Found-before-Resolved and the shutdown clause are monitor-only",
+             "cache-only browsing: the follow-up queries of add_pending_resolve (ANY for an instance / A+AAAA for its host, at most "
+             "three, 500 ms apart) are sent for an instance of a cache-only type too when its PTR arrives without SRV or address - "
+             "they carry other names than the type, are not refresh queries and are outside the theorems (as the follow-ups after a "
+             "stop are outside C13's reading)",
              "no_host_query_after_stop assumes a daemon without browse work (A/AAAA questions for the host of a browsed service are "
              "legitimate and have the same shape)"],
     assumptions=["event receivers stay alive", "address queries for a host are attributed to the stopped hostname search only when the daemon has no browse in the history"],
